@@ -73,3 +73,59 @@ func vNewConn() *vConn {
 		remote: &net.UDPAddr{IP: net.IPv4(10, 0, 0, 2).To4(), Port: 8805},
 	}
 }
+
+// vDatapath is a recording datapath. SendMsgToUPF answers with an arbitrary
+// cause out of {accepted, rejected} (vBool) unless fixed.
+type vDatapath struct {
+	slices      []SliceInfo
+	sliceCalls  int
+	msgs        []vDpMsg
+	endMarkers  [][]byte
+	emCalls     int
+	connected   bool
+	fixedCause  uint8 // 0: nondeterministic
+	exits       int
+	order       []string
+}
+
+type vDpMsg struct {
+	method  upfMsgType
+	all     PacketForwardingRules
+	updated PacketForwardingRules
+	cause   uint8
+}
+
+func (d *vDatapath) Exit()                         { d.exits++ }
+func (d *vDatapath) SetUpfInfo(u *upf, conf *Conf) {}
+func (d *vDatapath) AddSliceInfo(s *SliceInfo) error {
+	d.sliceCalls++
+	d.slices = append(d.slices, *s)
+	return nil
+}
+func (d *vDatapath) SendEndMarkers(l *[][]byte) error {
+	d.emCalls++
+	d.order = append(d.order, "endmarkers")
+	d.endMarkers = append(d.endMarkers, (*l)...)
+	return nil
+}
+func (d *vDatapath) SendMsgToUPF(method upfMsgType, all PacketForwardingRules, updated PacketForwardingRules) uint8 {
+	cause := d.fixedCause
+	if cause == 0 {
+		cause = 1 // ie.CauseRequestAccepted
+		if vBool("dp_rejects") {
+			cause = 64 // ie.CauseRequestRejected
+		}
+	}
+	d.order = append(d.order, "msg")
+	d.msgs = append(d.msgs, vDpMsg{method, vCopyRules(all), vCopyRules(updated), cause})
+	return cause
+}
+func (d *vDatapath) IsConnected(accessIP *net.IP) bool { return d.connected }
+
+func vCopyRules(r PacketForwardingRules) PacketForwardingRules {
+	var c PacketForwardingRules
+	c.pdrs = append(c.pdrs, r.pdrs...)
+	c.fars = append(c.fars, r.fars...)
+	c.qers = append(c.qers, r.qers...)
+	return c
+}
